@@ -369,11 +369,12 @@ func optEvents(ln *Line, names []string) []interface{} {
 
 // ---- C17: canonicalize twice ----
 type IdemEvent struct {
-	K    string    `json:"k"`
-	Prof string    `json:"prof"`
-	In   proj.Text `json:"in"`
-	Y    Res       `json:"y"` // p(x)
-	Z    Res       `json:"z"` // p(y.href)
+	K    string        `json:"k"`
+	Prof string        `json:"prof"`
+	In   proj.Text     `json:"in"`
+	Y    Res           `json:"y"`  // p(x)
+	Z    Res           `json:"z"`  // p(y.href)
+	YP   [][]proj.Text `json:"yp"` // the parameter list stored in y (what the serializer was given)
 }
 
 func idemEvents(in proj.Text, profs []string) []interface{} {
@@ -381,10 +382,15 @@ func idemEvents(in proj.Text, profs []string) []interface{} {
 	s := in.ToGo()
 	for _, pn := range profs {
 		p := parserFor(pn)
-		e := IdemEvent{K: "idem", Prof: pn, In: in, Z: Res{VE: VEList{}}}
-		e.Y, _ = parseU(p, s, nil)
+		e := IdemEvent{K: "idem", Prof: pn, In: in, Z: Res{VE: VEList{}}, YP: [][]proj.Text{}}
+		var yu *url.Url
+		e.Y, yu = parseU(p, s, nil)
 		if !e.Y.Fail {
 			e.Z, _ = parseU(p, e.Y.G.Href.ToGo(), nil)
+			func() {
+				defer func() { recover() }()
+				e.YP = paramsOf(yu)
+			}()
 		}
 		out = append(out, e)
 	}
@@ -403,6 +409,9 @@ type ClassEvent struct {
 func classEvents(sp []proj.Text, std bool, profs []string) []interface{} {
 	var out []interface{}
 	for _, pn := range profs {
+		if !std && !(pn == "GoogleSafeBrowsing" || pn == "Semantic" || strings.Contains(pn, "repeated_decode")) {
+			continue // escapes / empty fragment are demanded only of profiles with repeated percent-decoding
+		}
 		p := parserFor(pn)
 		e := ClassEvent{K: "class", Prof: pn, Std: std, Sp: sp}
 		for _, s := range sp {
